@@ -3,6 +3,7 @@
   The clock is a parameter of the model; theorems quantify over all clocks.
 -/
 import SqlDt.Lemmas.Div
+import SqlDt.Lemmas.ClockFree
 import SqlDt.Model.Serde
 namespace SqlDt.C18
 open SqlDt Gen Parser
@@ -63,14 +64,42 @@ theorem parseYear2 (input : Bytes) (c : Clock) (neg : Bool) (v : Int) (rem : Byt
   simp only [↓reduceIte, hp, bind, Except.bind, pure, Except.pure]
   split <;> rfl
 
-/-- Instance of clock independence with two very different clocks (the general statement for all clocks is
-    `C18.parse_clock_independent` below once the parser-state invariant is available). -/
-example :
-    parseValue .D (bytesOf "2021-02-03") (bytesOf "YYYY-MM-DD")
-        { year := 1, month := 1, day := 1, hour := 0, minute := 0, second := 0, usec := 0 } = .ok (18661, 0) ∧
-    parseValue .D (bytesOf "2021-02-03") (bytesOf "YYYY-MM-DD")
-        { year := 9999, month := 12, day := 31, hour := 23, minute := 59, second := 59, usec := 999999 } = .ok (18661, 0) := by
-  decide +kernel
+/-- CLOCK INDEPENDENCE, for all clocks, texts and pictures: when the picture has no short year field (Y, YY, YYY)
+    and – for types with a date – contains a year token and a month token (number or name), the result of parsing
+    (value or error, and the clock-read count) is the same under any two clocks. In particular a text that supplies
+    a full year, month and day is parsed without regard to the current date. -/
+theorem parse_clock_independent (ty : Ty) (fields : List Field) (input : Bytes) (c1 c2 : Clock)
+    (hfree : ∀ f ∈ fields, Lemmas.Field.clockFree f = true ∨ ty.info.IS_INTERVAL_YM = true)
+    (hdate : ty.info.HAS_DATE = true →
+      (∃ n, Field.Year n ∈ fields) ∧ (Field.Month ∈ fields ∨ ∃ s, Field.MonthName s ∈ fields)) :
+    Parser.parse ty fields input c1 = Parser.parse ty fields input c2 :=
+  Lemmas.parse_clock_independent ty fields input c1 c2 hfree hdate
+
+/-- The same at the level of `T::parse(text, picture)`. -/
+theorem parseValue_clock_independent (ty : Ty) (pic text : Bytes) (c1 c2 : Clock)
+    (h : ∀ fields, Lexer.tryNew pic = .ok fields →
+      (∀ f ∈ fields, Lemmas.Field.clockFree f = true ∨ ty.info.IS_INTERVAL_YM = true) ∧
+      (ty.info.HAS_DATE = true →
+        (∃ n, Field.Year n ∈ fields) ∧ (Field.Month ∈ fields ∨ ∃ s, Field.MonthName s ∈ fields))) :
+    parseValue ty text pic c1 = parseValue ty text pic c2 := by
+  unfold parseValue
+  cases ht : Lexer.tryNew pic with
+  | error e => rfl
+  | ok fields =>
+    simp only [bind, Except.bind]
+    exact Lemmas.parse_clock_independent ty fields text c1 c2 (h fields ht).1 (h fields ht).2
+
+/-- Without a short year field the field loop itself never looks at the clock (whatever else is missing). -/
+theorem fields_clock_independent (ty : Ty) (c1 c2 : Clock) (fields : List Field) (st : St)
+    (hfree : ∀ f ∈ fields, Lemmas.Field.clockFree f = true ∨ ty.info.IS_INTERVAL_YM = true) :
+    Parser.parseFields ty c1 st fields = Parser.parseFields ty c2 st fields :=
+  Lemmas.parseFields_clockFree ty c1 c2 fields st hfree
+
+/-- Non-vacuity: the hypotheses hold for e.g. `YYYY-MM-DD HH24:MI:SS` on timestamps. -/
+example : ∃ fields, Lexer.tryNew (bytesOf "YYYY-MM-DD HH24:MI:SS") = .ok fields ∧
+    (∀ f ∈ fields, Lemmas.Field.clockFree f = true) ∧ Field.Year 4 ∈ fields ∧ Field.Month ∈ fields :=
+  ⟨[.Year 4, .Hyphen, .Month, .Hyphen, .Day, .Blank 1, .Hour24, .Colon, .Minute, .Colon, .Second],
+    by decide +kernel, by decide +kernel, by decide +kernel, by decide +kernel⟩
 
 /-- Omitted day is 1, omitted time fields are zero, the omitted 12-hour field is 12 (model defaults). -/
 theorem ndt_defaults : ({} : NDT).day = 1 ∧ ({} : NDT).hour = 0 ∧ ({} : NDT).minute = 0 ∧ ({} : NDT).sec = 0 ∧
